@@ -117,6 +117,14 @@ fn do_offset_history(offset_value: u32, lit_len: u32, scratch: &mut [u32; 3]) ->
     actual_offset
 }
 
+/// Verification hooks (pass-through).
+#[cfg(zstd_rs_verif)]
+pub(crate) mod verif {
+    pub fn do_offset_history(offset_value: u32, lit_len: u32, scratch: &mut [u32; 3]) -> u32 {
+        super::do_offset_history(offset_value, lit_len, scratch)
+    }
+}
+
 #[cfg(test)]
 mod tests {
     use super::do_offset_history;
